@@ -166,16 +166,29 @@ def oracle(sc, res, rng_seed=0):
             if np.any(rows < lo - tol) or np.any(rows > hi + tol):
                 fails.append(Fail(key_for(sc, "between"), "adaptive estimate outside the range of the tapered spectra",
                                   float(np.max(np.maximum(lo - rows, rows - hi))), "within [min_k S_k, max_k S_k]"))
-    # ---- scaling by a
-    a = [2.0, -3.0, 0.5, 1000.0, 0.001][rng_seed % 5]
+    # ---- scaling by a: one tiny and one huge power-of-two factor (a*x is exact, so the densities of the
+    # fixed-weight estimators must scale exactly), sometimes negative / imaginary / not a power of two
+    amax = float(np.max(np.abs(x))) or 1.0
+    e0 = int(np.floor(np.log2(amax)))
+    down = [p for p in (-50, -40, -27, -13) if e0 + p >= -95]
+    up = [p for p in (50, 40, 27, 13) if e0 + p <= 95]
+    alist = []
+    if down:
+        alist.append(2.0 ** down[rng_seed % len(down)])
+    if up:
+        alist.append(-(2.0 ** up[rng_seed % len(up)]) if rng_seed % 3 == 0 else 2.0 ** up[rng_seed % len(up)])
+    if rng_seed % 4 == 0:
+        alist.append(-3.0)
     if sc["cplx"] and rng_seed % 2:
-        a = complex(1.0, -2.0)
-    r2 = S.run_scenario(sc, data=a * x)
-    if r2["err"] is None:
-        ok, e = close_arr(psd_rows(sc, r2).real, abs(a) ** 2 * rows)
-        if not ok:
-            fails.append(Fail(key_for(sc, "scale"), "density of a*x is not |a|^2 times the density of x",
-                              {"a": str(a), "relative_deviation": e}, "|a|^2 scaling"))
+        alist[0] = alist[0] * 1j
+    for a in alist:
+        r2 = S.run_scenario(sc, data=a * x)
+        if r2["err"] is None:
+            ok, e = close_arr(psd_rows(sc, r2).real, abs(a) ** 2 * rows)
+            if not ok:
+                fails.append(Fail(key_for(sc, "scale"), "density of a*x is not |a|^2 times the density of x",
+                                  {"a": str(a), "log2|a|": float(np.log2(abs(a))), "relative_deviation": e}, "|a|^2 scaling"))
+                break
     # ---- one-sided = folded two-sided
     if est != "welch" and not sc.get("use_sk"):
         r1 = S.run_scenario(variant(sc, sides="onesided"))
@@ -325,7 +338,9 @@ def run(ctx):
     ctx.extra["rule"] = ("seeded generator over estimator (periodogram, periodogram_csd, multi_taper_psd fixed/adaptive, Welch "
                          "single channel) x length 8..64 (thorough ..256) of both parities x NFFT in {None, N, >N} x sides x "
                          "real/complex x 1-5 channels incl. extra leading dimensions x Fs grid x normalize / precomputed Sk / "
-                         "NW / BW / low_bias; signals: noise, sinusoids, offsets, integers, AR(1), amplitude 1e-2..1e3; "
+                         "NW / BW / low_bias; signals: noise, noisy and pure tones, integers, AR(1), exactly-zero-mean and tiny-mean "
+                         "rows, DC offset on ~half of the rows, amplitude 2^-60..2^40 (straddling numpy's hidden atol 1e-8); "
+                         "scaling pairs with tiny and huge power-of-two a; "
                          "non-trivial = the call returned a spectrum; distinct by hash of the Coq case term")
     return ctx.finish(
         trusted=["library oracles, taken as data recorded during the implementation's own call and validated numerically "
